@@ -19,7 +19,8 @@ ID = 'C09'
 BOUNDS = {
     'quick': 'hosts H=1 with P=1 particle (the particle\'s host is that halo, so all conformity codes occur), all 7 tracer subsets x '
              'rsd in {off, box observer, light-cone origin} x rank decorators on/off; H=2,P=1 and H=1,P=2 without rsd for 3 tracer sets; '
-             'Nthread in {1,2}; every table value, HOD parameter, random, velz2kms, Lbox, origin a free real',
+             'Nthread in {1,2}; every table value, HOD parameter, random, velz2kms, Lbox, origin a free real'
+             '; also: fast_concatenate N1,N2 <= 4 x Nthread <= 4; defaults variant (optional tracer keys omitted) for {LRG}, {ELG}, {LRG,ELG,QSO}',
     'thorough': 'quick plus H=2,P=2 (no rsd) and H=2,P=1 with rsd for all tracer subsets',
 }
 OUTSIDE = 'numeric values of erf/erfc/log10/exp/pow (uninterpreted); the NFW satellite path (draws from np.random); ' \
